@@ -135,6 +135,33 @@ func genC05(t *rapid.T) C05Case {
 
 func TestC05(t *testing.T) {
 	p := Prop[C05Case]{ID: "C05", Sub: "copy", Gen: genC05, Run: runC05, Quick: 15000, Thorough: 300000}
+	// sources with 300 distinct symbols: the destination writer hands out symbol
+	// IDs around 128 and 256 for values, field names and annotations
+	Enumerate(t, p, "many-symbols", func(yield func(C05Case) bool) {
+		var vals []model.Value
+		for i := 0; i < 300; i++ {
+			sk := model.S(fmt.Sprintf("sym_%d", i))
+			switch i % 3 {
+			case 0:
+				vals = append(vals, model.SymV(sk))
+			case 1:
+				vals = append(vals, model.StructV(model.Field{Name: sk, Val: model.Int64V(int64(i))}))
+			default:
+				vals = append(vals, model.Int64V(int64(i)).WithAnn(sk))
+			}
+		}
+		// every symbol once more as a value, so that each ID is also written as one
+		for i := 0; i < 300; i++ {
+			vals = append(vals, model.SymV(model.S(fmt.Sprintf("sym_%d", i))))
+		}
+		for _, src := range [][]byte{printDoc(vals, nil).Doc, encodeDoc(vals, nil).Doc} {
+			for dest := 0; dest < 3; dest++ {
+				if !yield(C05Case{Doc: src, Dest: dest, LST: true, Src: "many-symbols"}) {
+					return
+				}
+			}
+		}
+	})
 	RunProp(t, p)
 }
 
